@@ -2,7 +2,7 @@
    /repo/src/transports/dtls/mod.rs: `handshake()` loop, `handle_incoming_packet`,
    `try_decrypt_record`, `handle_decrypted_record`, `process_handshake_payload`
    (message-seq filter, duplicate ClientHello re-flight, post-HVR resync, fragment buffer that
-   appends in arrival order), every `handle_*`, `HandshakeContext`, the retransmit tick, the
+   takes fragments strictly in offset order), every `handle_*`, `HandshakeContext`, the retransmit tick, the
    handshake deadline and the `export_keying_material` gate.
 
    Byte strings are values of an abstract type T; messages are constructor terms over T;
@@ -456,7 +456,9 @@ Definition is_connected (c : ctx) : bool := match st c with StConnected _ _ => t
 
 Definition seq_filter (c : ctx) (t : HandshakeType) (f : frag) : ctx * verdict :=
   if f_seq f <? rseq c then
-    if post_hvr c && is_client c then (c <| rseq := f_seq f |> <| post_hvr := false |>, VAccept)
+    (* a duplicated HelloVerifyRequest is not the server's post-HVR restart *)
+    if post_hvr c && is_client c && negb (HandshakeType_eqb t HandshakeType_HelloVerifyRequest)
+    then (c <| rseq := f_seq f |> <| post_hvr := false |>, VAccept)
     else (c, if HandshakeType_eqb t dup_retrigger_type && negb (is_client c) then VDup
              (* a Connected server answers a retransmitted client Finished with its last flight (1decd50) *)
              else if HandshakeType_eqb t dup_reflight_type && negb (is_client c) && is_connected c then VResend
@@ -472,6 +474,8 @@ Definition reassemble (c : ctx) (f : frag) : ctx * option body :=
   else
     let c1 := if negb (inc_seq c =? f_seq f) || (f_off f =? 0)
               then c <| inc := [] |> <| inc_len := 0 |> <| inc_seq := f_seq f |> else c in
+    (* 03019cb: only the fragment that continues the buffered bytes, and stays inside total_length *)
+    if negb (f_off f =? inc_len c1) || (f_total f <? f_off f + f_len f) then (c1, None) else
     let c2 := c1 <| inc := inc c1 ++ [f_data f] |> <| inc_len := inc_len c1 + f_len f |> in
     if inc_len c2 <? f_total f then (c2, None)
     else (c2 <| inc := [] |> <| inc_len := 0 |>, Some (assemble (inc c2))).
@@ -529,8 +533,9 @@ Definition handle_record (c : ctx) (r : record) : ctx * list out * rstatus :=
     (r_epoch r =? 0) &&
     (match r_content r with KAppData _ => true | _ => false end ||
      match skeys c with Some _ => true | None => false end) &&
+    (* c7ed063: with keys, while still handshaking, only ChangeCipherSpec is accepted in epoch 0 *)
     (negb (is_handshaking c) ||
-     match r_content r with KAppData _ | KAlert _ => true | _ => false end) in
+     match r_content r with KCcs => false | _ => true end) in
   if discard then (c, [], RNext)
   else if r_epoch r =? 0 then
     match r_seal r with
